@@ -327,6 +327,37 @@ func applyOp(root protoreflect.Message, op ROp, hasGetters bool) (ret RRet) {
 		return rOK()
 	case "LNewElement":
 		return elemRet(fd, m.NewField(fd).List().NewElement())
+	case "LRetained":
+		// one view kept across three calls
+		l := m.Mutable(fd).List()
+		n := l.Len()
+		if fd.Message() != nil {
+			l.AppendMutable()
+		} else {
+			l.Append(proj.ScalarValue(fd.Kind(), op.X))
+		}
+		l.Truncate(n)
+		if fd.Message() != nil {
+			l.Append(l.NewElement())
+		} else {
+			l.Append(proj.ScalarValue(fd.Kind(), op.X))
+		}
+		return rOK()
+	case "MRetained":
+		x := m.Mutable(fd).Map()
+		k := proj.ScalarValue(fd.MapKey().Kind(), op.K).MapKey()
+		if fd.MapValue().Message() != nil {
+			x.Mutable(k)
+		} else {
+			x.Set(k, proj.ScalarValue(fd.MapValue().Kind(), op.X))
+		}
+		x.Clear(k)
+		if fd.MapValue().Message() != nil {
+			x.Set(k, x.NewValue())
+		} else {
+			x.Set(k, proj.ScalarValue(fd.MapValue().Kind(), op.X))
+		}
+		return rOK()
 	case "MLen":
 		return rInt(mp().Len())
 	case "MIsValid":
